@@ -457,7 +457,7 @@ func (r *collection) Remove(t reflect.Type) {
 	defer r.mu.Unlock()
 
 	typeKey := TypeKey{Type: t}
-	delete(r.services, typeKey)
+	r.removeDescriptor(typeKey)
 }
 
 // RemoveKeyed removes a specific keyed service
@@ -470,7 +470,25 @@ func (r *collection) RemoveKeyed(t reflect.Type, key any) {
 	defer r.mu.Unlock()
 
 	typeKey := TypeKey{Type: t, Key: key}
+	r.removeDescriptor(typeKey)
+}
+
+// removeDescriptor removes a registration from the lookup table and from the
+// list of descriptors used by Build, Count and ToSlice.
+func (r *collection) removeDescriptor(typeKey TypeKey) {
+	descriptor, ok := r.services[typeKey]
+	if !ok {
+		return
+	}
+
 	delete(r.services, typeKey)
+
+	for i, d := range r.allDescriptors {
+		if d == descriptor {
+			r.allDescriptors = append(r.allDescriptors[:i:i], r.allDescriptors[i+1:]...)
+			break
+		}
+	}
 }
 
 // ToSlice returns a copy of all registered service descriptors
